@@ -15,7 +15,7 @@ ActsCommitFail == {a \in Only({"setenc", "inserth"}) : a.t = "f1"}
                   \cup {a \in Only({"select", "disk"}) : a.t \in {"f1", NewFile}}
                   \cup Only({"create", "commit", "rollback"})
 \* one statement that updates two tables
-ActsTwo == Only({"updatetwo", "select", "disk", "commit", "rollback", "env"}) \cup {a \in Only({"insert1", "delete"}) : a.t \in {"f1", "f2"} /\ a.k \in {1, 3}}
+ActsTwo == Only({"updatetwo", "deletetwo", "select", "disk", "commit", "rollback", "env"}) \cup {a \in Only({"insert1", "delete"}) : a.t \in {"f1", "f2"} /\ a.k \in {1, 3}}
 \* the temporary table and user-defined functions across transaction boundaries
 ActsTemp == {a \in Only({"insert1", "update", "delete", "replace", "select", "callins", "updatefail", "insertbad", "addcol", "dropcol"}) : a.t = TempT /\ a.k \in {0, 1}}
             \cup {a \in Only({"insert1", "select", "callins"}) : a.t = "f1" /\ a.k = 1}
